@@ -16,8 +16,28 @@ META = {
                  "histories, lock-step simulation sparse/dense, ownership argument for aliasing) + decision expressions "
                  "regenerated from mesh_attributes.py / data_container.py on every run + kernel-checked correspondence "
                  "batches on generated histories + independent dict-with-default oracle",
-    "level_text": "",
-    "level_note": "",
+    "level_text": "Machine-checked Coq theorems (all closed under the global context, unbounded in history length, container "
+                  "size, number of attributes, arity and keys) about an executable model of mesh_attributes.py and of the "
+                  "attribute plumbing of data_container.py: structural invariant incl. alignment (n_elem = rows = len(container)) "
+                  "along every history; total-map laws (read = pure function of the state, read-after-write, frame, refused "
+                  "writes change nothing, defaults after create/clear, growth keeps values and gives new elements the default); "
+                  "the two storages run the same acceptance decision and accept exactly the values of exact arity whose "
+                  "component types widen bool->int->float; the dense bounds test fires exactly outside [0,n) (on the generated "
+                  "expression and along every history); lock-step simulation: the same history run all-sparse and all-dense "
+                  "gives equal observations when reads/writes address elements; no aliasing: an update through a reference "
+                  "obtained by reading (a,i) changes no other entry, whatever happens in between. All FULL for the repaired "
+                  "code (4 fix: commits). Every decision expression / table / growth amount the theorems mention is regenerated "
+                  "from the source on each run; the state machine is tied to the code by kernel-evaluated correspondence "
+                  "batches on generated lock-step histories, and an independent dict-with-default oracle searches for failing inputs.",
+    "level_note": "Trusted: Coq kernel + vm_compute; the c05 translator (its output is what the theorems are about; also exercised "
+                  "by the correspondence); the harness (generators, driver canonicalisation: read-back values are cast to the "
+                  "attribute's type and compared exactly, strings interned as integer codes, numpy arrays of complex/str encoded as "
+                  "unsupported component types); numpy semantics assumed, not proved: Vec(list)/np.full/np.concatenate allocate "
+                  "new arrays, a[k,:] is a view, dtype conversion on assignment (modelled by `cast`). Not covered: mutation of "
+                  "the array returned by the dense as_array (it is a view), strings longer than 32 characters (dense truncates by "
+                  "design), numpy fixed-width truncation inside sparse string cells, register_array_as_attribute, create_attribute(size=...), "
+                  "malformed items in CornerDataContainer += list; sparse writes outside the container are modelled but the "
+                  "agreement theorem is only claimed for element indices.",
 }
 
 HEADER = """From Coq Require Import ZArith List Bool.
@@ -494,20 +514,23 @@ def classify(msg):
 
 
 # ====================================================================== shrinking
-def shrink_ops(ops, fails):
+def shrink_ops(ops, fails_many, deadline=None):
+    """delta debugging on an op list; fails_many(list of candidate op lists) -> list of bool (one driver run per round)"""
+    import time
     cur = list(ops)
     n = 2
     while len(cur) >= 2:
+        if deadline is not None and time.time() > deadline:
+            break
         chunk = max(1, len(cur) // n)
-        reduced = False
-        for i in range(0, len(cur), chunk):
-            cand = cur[:i] + cur[i + chunk:]
-            if cand and fails(cand):
-                cur = cand
-                n = max(n - 1, 2)
-                reduced = True
-                break
-        if not reduced:
+        cands = [cur[:i] + cur[i + chunk:] for i in range(0, len(cur), chunk)]
+        cands = [c for c in cands if c]
+        res = fails_many(cands) if cands else []
+        hit = next((c for c, r in zip(cands, res) if r), None)
+        if hit is not None:
+            cur = hit
+            n = max(n - 1, 2)
+        else:
             if chunk == 1:
                 break
             n = min(n * 2, len(cur))
@@ -756,11 +779,16 @@ def run(ctx):
             continue
         case = cases[idx]
 
-        def f(ops, case=case, key=key):
-            cc = dict(case, ops=ops)
-            m2 = oracle(cc, run_one(cc))
-            return m2 is not None and classify(m2) == key
-        small = shrink_ops(case["ops"], f)
+        def f(cands, case=case, key=key):
+            ccs = [dict(case, ops=o_) for o_ in cands]
+            obs_ = core.run_impl(DRIVER, {"cases": ccs}, timeout=300)["obs"]
+            out = []
+            for cc_, ob_ in zip(ccs, obs_):
+                m2 = oracle(cc_, ob_)
+                out.append(m2 is not None and classify(m2) == key)
+            return out
+        import time
+        small = shrink_ops(case["ops"], f, deadline=time.time() + 25) if len(reported) <= 4 else case["ops"]
         cc = dict(case, ops=small)
         ob = run_one(cc)
         ctx.violation(oracle(cc, ob) or msg, {"case": cc, "observed": ob, "class": key}, key=key)
